@@ -327,8 +327,12 @@ func timeOfView(v string, adj bool) (time.Time, error) {
 }
 
 // viewTimePart returns the time portion of a string view name.
-// e.g. the view "string_201901" would return "201901".
+// e.g. the view "string_201901" would return "201901". A view name
+// without a time portion (e.g. "standard") yields "".
 func viewTimePart(v string) string {
-	parts := strings.Split(v, "_")
-	return parts[len(parts)-1]
+	i := strings.LastIndex(v, "_")
+	if i < 0 {
+		return ""
+	}
+	return v[i+1:]
 }
